@@ -38,7 +38,7 @@ PROPS = {
         'not_decided': ['renames of M2M tables and model renames: one-line ALTER TABLE RENAME statements (bounded native only)'],
     },
     'C14': {
-        'families': ['contracts.execution', 'contracts.batches', 'contracts.sigsim', 'contracts.native'],
+        'families': ['contracts.execution', 'contracts.batches', 'contracts.sigsim', 'contracts.determinism', 'contracts.native'],
         'level': 'other',
         'technique': 'bounded native run of the preview/determinism contract (stand-in; order-insensitivity obligations in progress)',
         'text': 'evolve --sql preview compared statement by statement with the --execute trace, and --sql/--hint output compared across '
@@ -96,7 +96,7 @@ PROPS = {
         'not_decided': ['whole-history clauses (interleaved management commands)', 'EvolveAppTask.prepare branch selection (in progress)'],
     },
     'C15': {
-        'families': ['contracts.deletion', 'contracts.sigsim', 'contracts.sigcontainers', 'contracts.native'],
+        'families': ['contracts.deletion', 'contracts.sigsim', 'contracts.sigcontainers', 'contracts.execution', 'contracts.native'],
         'level': 'proof',
         'technique': 'contract-based deductive verification: whole-view frame postconditions, VCs from the real AST, z3/cvc5',
         'text': 'DeleteModel.simulate removes exactly the named model of the simulated app and leaves every other app entry and the '
